@@ -46,12 +46,14 @@ impl PendingStreamsQueue {
     #[verifier::external_body] pub fn clear(&mut self) { unimplemented!() }
     /// how many entries are queued (reinserted one included)
     pub uninterp spec fn qlen(&self) -> nat;
+    /// the streams that have an entry in the queue
+    pub uninterp spec fn ids(&self) -> Set<super::code::StreamId>;
     #[verifier::external_body] pub fn pop(&mut self) -> (r: Option<PendingStream>)
         ensures r.is_some() ==> old(self).qlen() > 0 && final(self).qlen() == old(self).qlen() - 1, r.is_none() ==> final(self).qlen() == old(self).qlen(),
             // queued ids were built by StreamId::new (index < 2^60)
             r matches Some(p) ==> p.id.0 < 0x4000_0000_0000_0000
     { unimplemented!() }
-    #[verifier::external_body] pub fn push_pending(&mut self, id: super::code::StreamId, priority: i32) ensures final(self).qlen() == old(self).qlen() + 1 { unimplemented!() }
+    #[verifier::external_body] pub fn push_pending(&mut self, id: super::code::StreamId, priority: i32) ensures final(self).qlen() == old(self).qlen() + 1, final(self).ids() == old(self).ids().insert(id) { unimplemented!() }
     #[verifier::external_body] pub fn reinsert_pending(&mut self, id: super::code::StreamId, priority: i32) ensures final(self).qlen() == old(self).qlen() + 1 { unimplemented!() }
 }
 impl From<super::code::StreamId> for VarInt { fn from(x: super::code::StreamId) -> (r: VarInt) ensures r.0 == x.0 { VarInt(x.0) } }
@@ -96,7 +98,9 @@ impl TransportError {
 /// The send buffer of a stream as far as the code here looks at it.  `un` = unacked(); the remaining observers are ghost: `stored` =
 /// the bytes written and not yet acknowledged, starting at stream offset `base`; `end` = offset().  poll_transmit / get carry the
 /// clauses proved on the real SendBuffer in unit send_buffer.
-pub struct SendBuffer { pub un: u64, pub g: Ghost<(Seq<u8>, u64, u64, bool)> }
+pub struct SendBuffer { pub un: u64, pub g: Ghost<(Seq<u8>, u64, u64, bool)>,
+    /// ghost: the offset from which data is still (or again) to be transmitted, relative to `base` (`unsent` of the real buffer)
+    pub unsent: Ghost<nat> }
 impl SendBuffer {
     pub open spec fn stored(&self) -> Seq<u8> { self.g@.0 }
     pub open spec fn base(&self) -> u64 { self.g@.1 }
@@ -109,7 +113,7 @@ impl SendBuffer {
     #[verifier::external_body] pub fn is_fully_acked(&self) -> (r: bool) ensures r == self.fully_acked() { unimplemented!() }
     /// the whole buffer is marked unsent again, so that the stream is transmitted from its first unacknowledged byte -- and its FIN
     /// with the last frame -- once more (`unsent = 0`)
-    pub uninterp spec fn resend_all(&self) -> bool;
+    pub open spec fn resend_all(&self) -> bool { self.unsent@ == 0 }
     #[verifier::external_body] pub fn retransmit_all_for_0rtt(&mut self)
         ensures final(self).resend_all(), final(self).un == old(self).un, final(self).g@ == old(self).g@, final(self).fully_acked() == old(self).fully_acked()
     { unimplemented!() }
@@ -159,7 +163,9 @@ impl Send {
     /// `self.pending.offset()`: how much the application has written; never beyond the peer's stream limit, which is a varint
     #[verifier::external_body] pub fn offset(&self) -> (r: u64) ensures r == self.pending.end() { unimplemented!() }
     /// `pending.has_unsent_data() || fin_pending`
-    #[verifier::external_body] pub fn is_pending(&self) -> (r: bool) { unimplemented!() }
+    #[verifier::external_body] pub fn is_pending(&self) -> (r: bool) ensures r == self.pending_spec() { unimplemented!() }
+    /// whether the stream has something to transmit (unsent or rewound data, or a FIN); a function of the whole send half
+    pub uninterp spec fn pending_spec(&self) -> bool;
     /// clauses of Send::increase_max_data proved on the real function in unit send_stream
     #[verifier::external_body] pub fn increase_max_data(&mut self, offset: u64) -> (r: bool)
         ensures final(self).max_data == (if offset > old(self).max_data && old(self).state == SendState::Ready { offset } else { old(self).max_data }),
@@ -564,6 +570,10 @@ pub open spec fn resent(m0: FxHashMap<StreamId, Option<Box<Send>>>, m1: FxHashMa
         None => true,
     }
 }
+/// stream `id`, if something was sent on it (see `resent`), has an entry in the scheduling queue
+pub open spec fn queued(m0: FxHashMap<StreamId, Option<Box<Send>>>, q: Set<StreamId>, id: StreamId) -> bool {
+    send_abs(m0, id) matches Some(s0) ==> ((s0.state is DataSent || !s0.pending.fully_acked() || s0.fin_pending) ==> q.contains(id))
+}
 pub open spec fn sat_sub(a: u64, b: u64) -> u64 { if a >= b { (a - b) as u64 } else { 0 } }
 pub open spec fn sat_add(a: u64, b: u64) -> u64 { if a + b > u64::MAX { u64::MAX } else { (a + b) as u64 } }
 pub open spec fn di(d: Dir) -> int { d as int }
@@ -895,12 +905,19 @@ impl StreamsState {
 //@ loop 0
             invariant
                 od.seq() == seq![Dir::Bi, Dir::Uni], self.next == old(self).next, self.next[0] <= 0x1000_0000_0000_0000, self.next[1] <= 0x1000_0000_0000_0000,
+                old(self).pending.ids().subset_of(self.pending.ids()),
+                forall|i: StreamId| (#[trigger] send_abs(old(self).send, i)) matches Some(st) && st.pending_spec() ==> old(self).pending.ids().contains(i),
+                forall|j: int, k: u64| 0 <= j < od.index@ && k < self.next[di(od.seq()[j])] ==> queued(old(self).send, self.pending.ids(), #[trigger] StreamId::spec_new(Side::Client, od.seq()[j], k)),
                 forall|j: int, k: u64| 0 <= j < od.index@ && k < self.next[di(od.seq()[j])] ==> resent(old(self).send, self.send, #[trigger] StreamId::spec_new(Side::Client, od.seq()[j], k)),
                 forall|j: int, k: u64| od.index@ <= j < 2 && k < self.next[di(od.seq()[j])] ==> send_abs(self.send, #[trigger] StreamId::spec_new(Side::Client, od.seq()[j], k)) == send_abs(old(self).send, StreamId::spec_new(Side::Client, od.seq()[j], k)),
 //@ loop 1
                 invariant
                     self.next == old(self).next, self.next[0] <= 0x1000_0000_0000_0000, self.next[1] <= 0x1000_0000_0000_0000,
                     od.seq() == seq![Dir::Bi, Dir::Uni], dir == od.seq()[od.index@], 0 <= od.index@ < 2,
+                    old(self).pending.ids().subset_of(self.pending.ids()),
+                    forall|i: StreamId| (#[trigger] send_abs(old(self).send, i)) matches Some(st) && st.pending_spec() ==> old(self).pending.ids().contains(i),
+                    forall|j: int, k: u64| 0 <= j < od.index@ && k < self.next[di(od.seq()[j])] ==> queued(old(self).send, self.pending.ids(), #[trigger] StreamId::spec_new(Side::Client, od.seq()[j], k)),
+                    forall|k: u64| k < index ==> queued(old(self).send, self.pending.ids(), #[trigger] StreamId::spec_new(Side::Client, dir, k)),
                     forall|j: int, k: u64| 0 <= j < od.index@ && k < self.next[di(od.seq()[j])] ==> resent(old(self).send, self.send, #[trigger] StreamId::spec_new(Side::Client, od.seq()[j], k)),
                     forall|k: u64| k < index ==> resent(old(self).send, self.send, #[trigger] StreamId::spec_new(Side::Client, dir, k)),
                     forall|k: u64| index <= k < self.next[di(dir)] ==> send_abs(self.send, #[trigger] StreamId::spec_new(Side::Client, dir, k)) == send_abs(old(self).send, StreamId::spec_new(Side::Client, dir, k)),
@@ -913,7 +930,11 @@ impl StreamsState {
                 }
 //@ contract
         requires old(self).next[0] <= 0x1000_0000_0000_0000, old(self).next[1] <= 0x1000_0000_0000_0000,
+            // scheduling invariant: a stream that has something to transmit has an entry in the queue
+            forall|i: StreamId| (#[trigger] send_abs(old(self).send, i)) matches Some(st) && st.pending_spec() ==> old(self).pending.ids().contains(i),
         ensures
+            // ... and is scheduled: it has an entry in the queue of streams with something to transmit
+            forall|d: Dir, k: u64| k < old(self).next[di(d)] ==> queued(old(self).send, final(self).pending.ids(), #[trigger] StreamId::spec_new(Side::Client, d, k)),
             // C01: after a Retry the 0-RTT packets are gone for good, so every stream on which anything was sent -- data, or just the FIN of
             // an empty stream -- is transmitted again from the start
             forall|d: Dir, k: u64| k < old(self).next[di(d)] ==> resent(old(self).send, final(self).send, #[trigger] StreamId::spec_new(Side::Client, d, k)),
